@@ -67,7 +67,9 @@ def run(tier):
   # reference, a selector and the original object, scoped and unscoped
   from ginverif import adapter_register as R
   for shape in sorted(R.SHAPES):
-    for api in ('external', 'register'):
+    for api in ('external', 'register', 'configurable'):
+      if api == 'configurable' and shape in ('class-with-registered-method', 'class-with-foreign-registered-attribute', 'builtin', 'callable-object'):
+        continue      # gin.configurable is a decorator for one's own functions / classes
       for scoped in (False, True):
         rep.evaluations += 1
         rep.nontrivial_case('shape-injection/%s/%s/%s' % (shape, api, scoped))
